@@ -361,4 +361,4 @@ def small_order_rule(prog, chk, rule):
     narrowing on the way from the accumulated differences to the verdict drops bits that may be set (E12). A comparison that drops
     part of a word rejects valid points that agree with a blocklisted one on the remaining bits - on this backend only."""
     from .. import knownbits
-    knownbits.lossless_trunc_rule(prog, chk, rule, [("has_small_order", "crypto_scalarmult/curve25519/ref10/")], floor=2)
+    knownbits.lossless_trunc_rule(prog, chk, rule, [("has_small_order", "crypto_scalarmult/curve25519/ref10/")], floor=1)
